@@ -432,6 +432,18 @@ impl<Aux> Vm<'_, Aux> {
                     .map(|f| f.stack_offset)
                     .unwrap_or(0),
             });
+            #[cfg(feature = "verif-hooks")]
+            if crate::verif::values_on() {
+                crate::verif::emit(|| {
+                    crate::verif::Event::Stack(
+                        self.runtime_data
+                            .value_stack
+                            .iter()
+                            .map(crate::verif::StackVal::from)
+                            .collect(),
+                    )
+                });
+            }
             *instr_ptr += 1;
             debug!("Executing: {instr:?} instr_ptr: {instr_ptr}");
             match instr {
